@@ -205,6 +205,18 @@ func addTimeIntrinsics() {
 		return th.R.TB.Bool(was)
 	}
 	I["(*time.Timer).Stop"] = stop
+	// Reset re-arms the timer (its function or channel is kept) to expire d after a fresh instant.
+	I["(*time.Timer).Reset"] = func(th *Thread, _ *frame, _ token.Pos, _ *ssa.Function, a []Value) Value {
+		p := a[0].(Ptr)
+		if p.IsNil() {
+			th.targetPanic("Reset on nil timer", token.NoPos)
+		}
+		tm := th.R.timerOf(p)
+		was := tm.active
+		tm.deadline = th.R.TB.Bin(OAdd, th.R.nowTerm(), term(a[1]))
+		tm.active = true
+		return th.R.TB.Bool(was)
+	}
 	I["(*time.Ticker).Stop"] = func(th *Thread, c *frame, p token.Pos, f *ssa.Function, a []Value) Value {
 		stop(th, c, p, f, a)
 		return nil
